@@ -33,6 +33,7 @@ type Check struct {
 	MaxDec  int
 	MaxConc int
 	Solver  string
+	OnBlock string // "violation": a path blocked forever is a violation (deadlock) instead of inconclusive
 	File    string
 	Fn      *ssa.Function
 }
@@ -114,6 +115,8 @@ func parseDirectives(path, pkgPath string, l *Loaded) error {
 					fmt.Sscan(v, &c.MaxConc)
 				case "solver":
 					c.Solver = v
+				case "onblock":
+					c.OnBlock = v
 				default:
 					return fmt.Errorf("%s: unknown key %q in %s", path, k, line)
 				}
